@@ -1,23 +1,30 @@
 /-!
 C18 — model of the build protocol of `go/ir` (task.go, builder.go, methods.go,
-instantiate.go).
+instantiate.go) as a labelled transition system.
 
 What is modelled (transliterated from the Go code):
 
-* `task` (task.go): `done` (closed channel), `edges` (added before `markDone`, only by the
-  task's own builder; `addEdge` skips `x == y` and targets that are transitively done),
-  `transitive`; `wait` as the BFS over done tasks (`work`, index `i`, blocking receive on
-  `u.done`), storing `x.transitive` at the end.
+* `task` (task.go): `done` (closed channel), `edges` (a set; added before `markDone`, only by
+  the task's own builder; `addEdge` skips `x == y` and targets that are transitively done and
+  panics when `x` is already done), `transitive`; `wait` as the BFS over the tasks reachable
+  through `edges` (`work`, index `i`; first the `isTransitivelyDone` check, then the blocking
+  receive on `u.done`, then the not yet enqueued edges of `u` are appended in ANY order — Go
+  iterates over a map), storing `x.transitive` at the end.
 * builders (builder.go `iterate`/`buildFunction`, `Package.build`, `Program.MethodValue`):
-  a process per builder. It builds the functions of its queue `b.fns` in order; building a
-  body looks shared functions up by key (`Function.instance`, `Program.objectMethod`,
-  `Program.MethodValue`: generic instances, on-demand methods, wrappers). A lookup is ONE
-  atomic step because it happens under the table's mutex: a missing key is created with
+  a process per builder. It builds the functions of its queue `b.fns` in order
+  (`buildFunction` skips a function whose `build` is nil); building a body looks shared
+  functions up by key (`Function.instance`, `Program.objectMethod`, `Program.MethodValue`:
+  generic instances, on-demand methods, wrappers). A lookup is ONE atomic step because it
+  happens under the table's mutex: a missing key is created with
   `fn.buildshared = b.shared()` and enqueued on the creator's queue, an existing one makes
   the builder `waitForSharedFunction` (= `addEdge` to the creator's task).  After the queue
   is exhausted: `markDone`, then `wait`.
 * `Program.Build`: one goroutine per package holding a `cpuLimit` token (`cap`) from start
-  to finish (BuildSerially = capacity 1); `Package.Build` = `sync.Once`.
+  to finish (BuildSerially = capacity 1); `Package.Build` = `sync.Once`: the `start`
+  transition of a process exists at most once, however many callers there are.
+* `Program.MethodValue(sel)` called by a client: a process without token whose only root is a
+  pseudo function with the single reference `sel` (the lookup under `methodsMu`), followed
+  by `iterate`.
 
 Processes are natural numbers below `nproc`; process `p` owns task `p` (`b.shared()`).
 The state uses functions `Pid → _` so that proofs are by `if`-splitting; everything is
@@ -28,9 +35,10 @@ namespace Verif.C18
 abbrev Pid := Nat
 abbrev Key := Nat
 
-/-- Functions: declared in a package (`p.created`) or shared (memoised by key). -/
+/-- Functions: declared in a package (`p.created`, the `n`-th of package `p`) or shared
+(memoised by key). -/
 inductive FnId where
-  | decl (n : Nat)
+  | decl (p : Pid) (n : Nat)
   | shared (k : Key)
   deriving DecidableEq, Repr
 
@@ -50,8 +58,9 @@ inductive Phase where
   | idle
   /-- `iterate`: remaining queue; the function being built with the lookups still to do -/
   | building (queue : List FnId) (cur : Option (FnId × List Key))
-  /-- `wait`: the BFS work list and the index of the task being received from -/
-  | waiting (work : List Pid) (i : Nat)
+  /-- `wait`: the BFS work list, the index of the task looked at, and whether the
+  `isTransitivelyDone` check of that task has been made (the builder is at `<-u.done`) -/
+  | waiting (work : List Pid) (i : Nat) (rcv : Bool)
   | finished
   deriving DecidableEq, Repr
 
@@ -64,78 +73,176 @@ structure St where
   memo : List (Key × Pid)
   /-- log of `fn.build = nil` events: function, builder -/
   built : List (FnId × Pid)
+  /-- `panic("cannot add an edge to a done task")` happened -/
+  panicked : Bool
 
 def upd {α : Type} (f : Pid → α) (p : Pid) (v : α) : Pid → α := fun q => if q = p then v else f q
 
 @[simp] theorem upd_same {α : Type} (f : Pid → α) (p : Pid) (v : α) : upd f p v p = v := by simp [upd]
 theorem upd_other {α : Type} (f : Pid → α) (p q : Pid) (v : α) (h : q ≠ p) : upd f p v q = f q := by
   simp [upd, h]
+theorem upd_apply {α : Type} (f : Pid → α) (p q : Pid) (v : α) :
+    upd f p v q = if q = p then v else f q := rfl
 
-def init (_P : Prog) : St :=
+def init : St :=
   { phase := fun _ => .idle, done := fun _ => false, trans := fun _ => false,
-    edges := fun _ => [], memo := [], built := [] }
+    edges := fun _ => [], memo := [], built := [], panicked := false }
 
 def Phase.isRunning : Phase → Bool
   | .building _ _ => true
-  | .waiting _ _ => true
+  | .waiting _ _ _ => true
   | _ => false
 
 /-- number of `cpuLimit` tokens taken -/
 def running (P : Prog) (s : St) : Nat :=
   ((List.range P.nproc).filter fun q => P.tok q && (s.phase q).isRunning).length
 
-/-- `x.addEdge(y)` (the caller has checked `fn.buildshared != nil`). -/
-def addEdge (s : St) (x y : Pid) : St :=
-  if x = y ∨ s.trans y = true ∨ y ∈ s.edges x then s
-  else { s with edges := upd s.edges x (s.edges x ++ [y]) }
+/-- `fn.build == nil` -/
+def isBuilt (s : St) (f : FnId) : Bool := s.built.any fun e => e.1 == f
 
-/-- One atomic step of process `p`; `none` = not enabled (blocked, finished, or the
-`panic("cannot add an edge to a done task")`). -/
-def step (P : Prog) (s : St) (p : Pid) : Option St :=
-  if p < P.nproc then
-    match s.phase p with
-    | .idle =>
-      if P.tok p = false ∨ running P s < P.cap then
-        some { s with phase := upd s.phase p (.building ((P.roots p).map .decl) none) }
-      else none
-    | .building [] none =>
-      -- b.buildshared.markDone(); b.buildshared.wait() starts its BFS at x
-      some { s with done := upd s.done p true, phase := upd s.phase p (.waiting [p] 0) }
-    | .building (f :: q) none =>
-      some { s with phase := upd s.phase p (.building q (some (f, P.refs f))) }
-    | .building q (some (f, [])) =>
-      -- fn.done(): fn.build = nil
-      some { s with built := s.built ++ [(f, p)], phase := upd s.phase p (.building q none) }
-    | .building q (some (f, k :: ks)) =>
-      if s.done p = true then none
-      else
-        match s.memo.lookup k with
-        | none =>
-          some { s with memo := s.memo ++ [(k, p)],
-                        phase := upd s.phase p (.building (q ++ [.shared k]) (some (f, ks))) }
-        | some o =>
-          some (addEdge { s with phase := upd s.phase p (.building q (some (f, ks))) } p o)
-    | .waiting w i =>
-      match w[i]? with
-      | none => some { s with trans := upd s.trans p true, phase := upd s.phase p .finished }
-      | some u =>
-        if s.trans u = true then some { s with phase := upd s.phase p (.waiting w (i + 1)) }
-        else if s.done u = true then
-          let w' := w ++ (s.edges u).filter (fun v => !(w.contains v))
-          some { s with phase := upd s.phase p (.waiting w' (i + 1)) }
-        else none
-    | .finished => none
-  else none
+/-- the edge set of `x` after `x.edges[y] = unit{}` -/
+def insertEdge (es : List Pid) (y : Pid) : List Pid := if y ∈ es then es else es ++ [y]
 
-/-- States reachable under any interleaving. -/
+inductive Label where
+  /-- `Package.Build`: the Once is taken, `builder{fns: p.created}` -/
+  | start
+  /-- `buildFunction(fn)` with `fn.build != nil` -/
+  | pick (f : FnId)
+  /-- `buildFunction(fn)` with `fn.build == nil` -/
+  | skip (f : FnId)
+  /-- lookup miss under the table's mutex: create, `buildshared = b.shared()`, enqueue -/
+  | create (k : Key)
+  /-- lookup hit: `waitForSharedFunction(fn)`; `edge` = an edge was stored -/
+  | hit (k : Key) (o : Pid) (edge : Bool)
+  /-- `fn.done()` -/
+  | fnDone (f : FnId)
+  | markDone
+  /-- `wait`: `u.isTransitivelyDone()` was true -/
+  | waitSkip (u : Pid)
+  /-- `wait`: `u.isTransitivelyDone()` was false; go on to `<-u.done` -/
+  | waitCheck (u : Pid)
+  /-- `wait`: `<-u.done` returned; the new edges of `u` appended in this order -/
+  | waitRecv (u : Pid) (new : List Pid)
+  /-- `wait`: work list exhausted, `x.transitive.Store(true)` -/
+  | waitEnd
+  | panic
+  deriving DecidableEq, Repr
+
+/-- The labelled transition relation: one atomic step of process `p`. -/
+inductive Trans (P : Prog) (s : St) : Pid → Label → St → Prop
+  | start {p : Pid} :
+      p < P.nproc → s.phase p = .idle → (P.tok p = false ∨ running P s < P.cap) →
+      Trans P s p .start
+        { s with phase := upd s.phase p (.building ((P.roots p).map (FnId.decl p)) none) }
+  | pick {p : Pid} {f : FnId} {q : List FnId} :
+      s.phase p = .building (f :: q) none → isBuilt s f = false →
+      Trans P s p (.pick f) { s with phase := upd s.phase p (.building q (some (f, P.refs f))) }
+  | skip {p : Pid} {f : FnId} {q : List FnId} :
+      s.phase p = .building (f :: q) none → isBuilt s f = true →
+      Trans P s p (.skip f) { s with phase := upd s.phase p (.building q none) }
+  | create {p : Pid} {f : FnId} {k : Key} {ks : List Key} {q : List FnId} :
+      s.phase p = .building q (some (f, k :: ks)) → s.memo.lookup k = none →
+      Trans P s p (.create k)
+        { s with memo := s.memo ++ [(k, p)],
+                 phase := upd s.phase p (.building (q ++ [.shared k]) (some (f, ks))) }
+  | hitNoEdge {p : Pid} {f : FnId} {k : Key} {ks : List Key} {q : List FnId} {o : Pid} :
+      s.phase p = .building q (some (f, k :: ks)) → s.memo.lookup k = some o →
+      (o = p ∨ s.trans o = true) →
+      Trans P s p (.hit k o false) { s with phase := upd s.phase p (.building q (some (f, ks))) }
+  | hitPanic {p : Pid} {f : FnId} {k : Key} {ks : List Key} {q : List FnId} {o : Pid} :
+      s.phase p = .building q (some (f, k :: ks)) → s.memo.lookup k = some o →
+      o ≠ p → s.trans o = false → s.done p = true →
+      Trans P s p .panic { s with panicked := true }
+  | hitEdge {p : Pid} {f : FnId} {k : Key} {ks : List Key} {q : List FnId} {o : Pid} :
+      s.phase p = .building q (some (f, k :: ks)) → s.memo.lookup k = some o →
+      o ≠ p → s.trans o = false → s.done p = false →
+      Trans P s p (.hit k o true)
+        { s with edges := upd s.edges p (insertEdge (s.edges p) o),
+                 phase := upd s.phase p (.building q (some (f, ks))) }
+  | fnDone {p : Pid} {f : FnId} {q : List FnId} :
+      s.phase p = .building q (some (f, [])) →
+      Trans P s p (.fnDone f)
+        { s with built := s.built ++ [(f, p)], phase := upd s.phase p (.building q none) }
+  | markDone {p : Pid} :
+      s.phase p = .building [] none →
+      Trans P s p .markDone
+        { s with done := upd s.done p true, phase := upd s.phase p (.waiting [p] 0 false) }
+  | waitSkip {p : Pid} {w : List Pid} {i : Nat} {u : Pid} :
+      s.phase p = .waiting w i false → w[i]? = some u → s.trans u = true →
+      Trans P s p (.waitSkip u) { s with phase := upd s.phase p (.waiting w (i + 1) false) }
+  | waitCheck {p : Pid} {w : List Pid} {i : Nat} {u : Pid} :
+      s.phase p = .waiting w i false → w[i]? = some u → s.trans u = false →
+      Trans P s p (.waitCheck u) { s with phase := upd s.phase p (.waiting w i true) }
+  | waitRecv {p : Pid} {w : List Pid} {i : Nat} {u : Pid} {new : List Pid} :
+      s.phase p = .waiting w i true → w[i]? = some u → s.done u = true →
+      new.Nodup → (∀ v, v ∈ new ↔ (v ∈ s.edges u ∧ v ∉ w)) →
+      Trans P s p (.waitRecv u new)
+        { s with phase := upd s.phase p (.waiting (w ++ new) (i + 1) false) }
+  | waitEnd {p : Pid} {w : List Pid} {i : Nat} :
+      s.phase p = .waiting w i false → w[i]? = none →
+      Trans P s p .waitEnd
+        { s with trans := upd s.trans p true, phase := upd s.phase p .finished }
+
+/-- States reachable under any interleaving (any scheduler, any map iteration order). -/
 inductive Reachable (P : Prog) : St → Prop
-  | init : Reachable P (init P)
-  | step {s t : St} {p : Pid} : Reachable P s → step P s p = some t → Reachable P t
+  | init : Reachable P init
+  | step {s t : St} {p : Pid} {l : Label} : Reachable P s → Trans P s p l t → Reachable P t
+
+/-! ### The executable step (used by the driver); `Theorems.step_sound/step_complete` tie it
+to `Trans`. -/
+
+/-- One atomic step of process `p`. `hint`: the order in which `wait` appends the new edges
+(`none`: the order of insertion). `none` result = not enabled. -/
+def step (P : Prog) (s : St) (p : Pid) (hint : Option (List Pid) := none) : Option (Label × St) :=
+  match s.phase p with
+  | .idle =>
+    if p < P.nproc ∧ (P.tok p = false ∨ running P s < P.cap) then
+      some (.start, { s with phase := upd s.phase p (.building ((P.roots p).map (FnId.decl p)) none) })
+    else none
+  | .building [] none =>
+    some (.markDone, { s with done := upd s.done p true, phase := upd s.phase p (.waiting [p] 0 false) })
+  | .building (f :: q) none =>
+    if isBuilt s f then some (.skip f, { s with phase := upd s.phase p (.building q none) })
+    else some (.pick f, { s with phase := upd s.phase p (.building q (some (f, P.refs f))) })
+  | .building q (some (f, [])) =>
+    some (.fnDone f, { s with built := s.built ++ [(f, p)], phase := upd s.phase p (.building q none) })
+  | .building q (some (f, k :: ks)) =>
+    match s.memo.lookup k with
+    | none =>
+      some (.create k, { s with memo := s.memo ++ [(k, p)],
+                                phase := upd s.phase p (.building (q ++ [.shared k]) (some (f, ks))) })
+    | some o =>
+      if o = p ∨ s.trans o = true then
+        some (.hit k o false, { s with phase := upd s.phase p (.building q (some (f, ks))) })
+      else if s.done p = true then some (.panic, { s with panicked := true })
+      else some (.hit k o true,
+                 { s with edges := upd s.edges p (insertEdge (s.edges p) o),
+                          phase := upd s.phase p (.building q (some (f, ks))) })
+  | .waiting w i false =>
+    match w[i]? with
+    | none => some (.waitEnd, { s with trans := upd s.trans p true, phase := upd s.phase p .finished })
+    | some u =>
+      if s.trans u = true then some (.waitSkip u, { s with phase := upd s.phase p (.waiting w (i + 1) false) })
+      else some (.waitCheck u, { s with phase := upd s.phase p (.waiting w i true) })
+  | .waiting w i true =>
+    match w[i]? with
+    | none => none
+    | some u =>
+      if s.done u = true then
+        let dflt := (s.edges u).filter fun v => !(w.contains v)
+        let new := match hint with
+          | none => dflt
+          | some h => h
+        if new.Nodup ∧ (∀ v ∈ new, v ∈ dflt) ∧ (∀ v ∈ dflt, v ∈ new) then
+          some (.waitRecv u new, { s with phase := upd s.phase p (.waiting (w ++ new) (i + 1) false) })
+        else none
+      else none
+  | .finished => none
 
 /-- Replay a schedule; processes that are not enabled are skipped. -/
 def runSched (P : Prog) : List Pid → St → St
   | [], s => s
-  | p :: ps, s => runSched P ps ((step P s p).getD s)
+  | p :: ps, s => runSched P ps (((step P s p).map (·.2)).getD s)
 
 def allFinished (P : Prog) (s : St) : Prop := ∀ p, p < P.nproc → s.phase p = .finished
 
@@ -145,7 +252,7 @@ instance (P : Prog) (s : St) : Decidable (allFinished P s) := by
 /-- the deterministic scheduler: lowest enabled index first (with capacity 1 this is
 BuildSerially) -/
 def firstStep (P : Prog) (s : St) : Option St :=
-  (List.range P.nproc).findSome? (step P s)
+  (List.range P.nproc).findSome? fun p => (step P s p).map (·.2)
 
 def runSerial (P : Prog) : Nat → St → St
   | 0, s => s
@@ -158,7 +265,7 @@ def runSerial (P : Prog) : Nat → St → St
 starts the builder, every later call finds the Once taken. -/
 def callBuild (P : Prog) (s : St) (p : Pid) : St :=
   match s.phase p with
-  | .idle => { s with phase := upd s.phase p (.building ((P.roots p).map .decl) none) }
+  | .idle => { s with phase := upd s.phase p (.building ((P.roots p).map (FnId.decl p)) none) }
   | _ => s
 
 /-- `builder.buildFunction` on a list of functions, by-passing the Once: a function whose
@@ -166,10 +273,10 @@ def callBuild (P : Prog) (s : St) (p : Pid) : St :=
 def rebuildFns (s : St) (p : Pid) : List FnId → St
   | [] => s
   | f :: fs =>
-    if s.built.any (fun e => e.1 == f) then rebuildFns s p fs
+    if isBuilt s f then rebuildFns s p fs
     else rebuildFns { s with built := s.built ++ [(f, p)] } p fs
 
-/-! ### Reachability in the task graph -/
+/-! ### Reachability in the task graph, needed functions -/
 
 inductive Reach (e : Pid → List Pid) : Pid → Pid → Prop
   | refl (x : Pid) : Reach e x x
@@ -177,24 +284,32 @@ inductive Reach (e : Pid → List Pid) : Pid → Pid → Prop
 
 /-- the functions the build of package `p` depends on -/
 inductive Needs (P : Prog) (p : Pid) : FnId → Prop
-  | root {n : Nat} : n ∈ P.roots p → Needs P p (.decl n)
+  | root {n : Nat} : n ∈ P.roots p → Needs P p (.decl p n)
   | ref {f : FnId} {k : Key} : Needs P p f → k ∈ P.refs f → Needs P p (.shared k)
 
-/-! ### Final-state view (what the harness can read off the real heap after a build) -/
+/-- `f` has been built (by some builder) -/
+def Built (s : St) (f : FnId) : Prop := ∃ o, (f, o) ∈ s.built
+
+/-! ### Final-state view (what the harness reads off the real heap after a build) -/
 
 structure FinalView where
   done : List Bool
   trans : List Bool
   edges : List (List Nat)
-  /-- per function: owner task, built?, owner tasks of the shared functions it refers to -/
-  fns : List (Nat × Bool × List Nat)
+  /-- per function: the task of its builder if observable (`fn.buildshared`), built?, the
+  tasks (`buildshared`) of the shared functions its body refers to -/
+  fns : List (Option Nat × Bool × List Nat)
   deriving Repr
 
 def FinalView.ntask (a : FinalView) : Nat := a.done.length
 
-def checkFn (a : FinalView) (f : Nat × Bool × List Nat) : Bool :=
-  f.2.1 && f.1 < a.ntask &&
-  f.2.2.all fun o => o == f.1 || (a.edges.getD f.1 []).contains o || a.trans.getD o false
+def checkFn (a : FinalView) (f : Option Nat × Bool × List Nat) : Bool :=
+  f.2.1 &&
+  f.2.2.all (fun o => o < a.ntask) &&
+  match f.1 with
+  | none => f.2.2.all fun o => a.trans.getD o false
+  | some t => t < a.ntask &&
+      f.2.2.all fun o => o == t || (a.edges.getD t []).contains o || a.trans.getD o false
 
 def checkFinal (a : FinalView) : Bool :=
   a.done.all (· == true) &&
@@ -202,15 +317,15 @@ def checkFinal (a : FinalView) : Bool :=
   (List.range a.ntask).all (fun t => (a.edges.getD t []).all fun e => e < a.ntask && e != t) &&
   a.fns.all (checkFn a)
 
-def ownerOf (s : St) (k : Key) : Nat := (s.memo.lookup k).getD 1000000000
+def ownerOf (s : St) (k : Key) : Nat := (s.memo.lookup k).getD 0
 
 def viewOf (P : Prog) (s : St) : FinalView :=
   { done := (List.range P.nproc).map s.done,
     trans := (List.range P.nproc).map s.trans,
     edges := (List.range P.nproc).map s.edges,
-    fns := (s.memo.map fun e => (e.2, s.built.contains (FnId.shared e.1, e.2),
+    fns := (s.memo.map fun e => (some e.2, isBuilt s (FnId.shared e.1),
                                   (P.refs (.shared e.1)).map (ownerOf s))) ++
            (List.range P.nproc).flatMap fun p => (P.roots p).map fun n =>
-              (p, s.built.contains (FnId.decl n, p), (P.refs (.decl n)).map (ownerOf s)) }
+              (some p, isBuilt s (FnId.decl p n), (P.refs (.decl p n)).map (ownerOf s)) }
 
 end Verif.C18
